@@ -314,15 +314,33 @@ pub fn unit_closures_with(g: &mut Gen, named_tasks: bool) -> ((String, bool), bo
             s.push_str(&format!("fn once(){{\n  {}\n}}\n", upd(g, "0.5")));
         }
     }
+    // a closure VALUE that outlives its scheduled runs: made once by a maker at global scope, then
+    // scheduled again and again from dsp (1), also called directly (2), scheduled twice per sample (3)
+    let reuse = if g.bool(1, 3) { 1 + g.below(3) } else { 0 };
+    if reuse > 0 {
+        s.push_str(&format!("fn mkcl(step){{\n  | | {{ {} }}\n}}\nlet gcl = mkcl({}.0)\n", upd(g, "step"), g.int(1, 4)));
+        if g.coin() {
+            s.push_str(&format!("gcl@{}.0\n", g.int(1, 3)));
+        }
+    }
     s.push_str("fn dsp(){\n");
     if named & 2 == 2 {
         s.push_str(&format!("  once@(now+{}.0)\n", g.int(1, 2)));
     }
-    let nc = g.int(if sched { 0 } else { 1 }, 3);
+    if reuse > 0 {
+        s.push_str(&format!("  gcl@(now+{}.0)\n", g.int(1, 2)));
+        if reuse == 2 {
+            s.push_str("  gcl()\n");
+        }
+        if reuse == 3 {
+            s.push_str(&format!("  gcl@(now+{}.0)\n", g.int(1, 3)));
+        }
+    }
+    let nc = g.int(if sched || reuse > 0 { 0 } else { 1 }, 3);
     for _ in 0..nc {
         let arg = *g.pick(&["1.0", "now", "acc * 0.5", "2.5"]);
         s.push_str(&format!("  bump{}({arg})\n", g.usize_below(nb)));
     }
     s.push_str("  acc\n}\n");
-    ((s, sched || named > 0), named > 0)
+    ((s, sched || named > 0 || reuse > 0), named > 0)
 }
